@@ -45,6 +45,7 @@ type LoadOpts struct {
 	Profiles               []string `json:"profiles,omitempty"`
 	ProjectName            string   `json:"project_name,omitempty"`
 	NameImperative         bool     `json:"name_imperative,omitempty"`
+	NoStubLoader           bool     `json:"no_stub_loader,omitempty"` // the remote ResourceLoader is not registered for this load
 }
 
 // G wraps the choice source with generator helpers.
@@ -66,6 +67,9 @@ func (g *G) on(f string) bool {
 	v, ok := g.feat[f]
 	if !ok {
 		v = g.chance("feat:"+f, 1, 2)
+		if f == "conflicts" {
+			v = g.chance("feat-rare:"+f, 1, 6)
+		}
 		g.feat[f] = v
 		if v {
 			g.L.Features = append(g.L.Features, f)
@@ -109,6 +113,20 @@ func (g *G) interp(s string, c *svcCtx) *Y {
 		}
 	}
 	return Str(s)
+}
+
+// num spells an integer attribute as a YAML integer, as a quoted string, or through a variable:
+// the loader's cast table (looked up by ranging over a map of path patterns) must give the same value.
+func (g *G) num(v int, c *svcCtx) *Y {
+	switch g.n("num-form", 6) {
+	case 0:
+		return Str(fmt.Sprint(v))
+	case 1:
+		if g.on("interpolation") {
+			return Str(fmt.Sprintf("${UNSET_NUM:-%d}", v))
+		}
+	}
+	return Int(v)
 }
 
 func (g *G) kvMapOrList(label string, c *svcCtx, keys []string) *Y {
@@ -247,7 +265,7 @@ func (g *G) attr(a string, c *svcCtx) *Y {
 			case 3:
 				y.Add(Str("4000-4003"))
 			default:
-				m := Map().Set("target", Int(80+g.n("port", 3))).Set("published", Str(fmt.Sprint(8080+g.n("port", 3))))
+				m := Map().Set("target", g.num(80+g.n("port", 3), c)).Set("published", Str(fmt.Sprint(8080+g.n("port", 3))))
 				if g.chance("port-proto", 1, 2) {
 					m.Set("protocol", Str("udp"))
 				}
@@ -365,7 +383,7 @@ func (g *G) attr(a string, c *svcCtx) *Y {
 	case "deploy":
 		d := Map()
 		if g.chance("dp-rep", 1, 2) {
-			d.Set("replicas", Int(1+g.n("rep", 3)))
+			d.Set("replicas", g.num(1+g.n("rep", 3), c))
 		}
 		if g.chance("dp-lbl", 1, 2) {
 			d.Set("labels", g.kvMapOrList("dlabels", c, labelKeys))
@@ -396,7 +414,7 @@ func (g *G) attr(a string, c *svcCtx) *Y {
 		}
 		h.Set("interval", Str(g.pick("hc-int", []string{"10s", "1m30s", "500ms"})))
 		if g.chance("hc-ret", 1, 2) {
-			h.Set("retries", Int(1+g.n("retries", 5)))
+			h.Set("retries", g.num(1+g.n("retries", 5), c))
 		}
 		if g.chance("hc-sp", 1, 2) {
 			h.Set("start_period", Str("15s"))
@@ -411,9 +429,13 @@ func (g *G) attr(a string, c *svcCtx) *Y {
 	case "ulimits":
 		u := Map()
 		if g.chance("ul-a", 1, 2) {
-			u.Set("nproc", Int(65535))
+			u.Set("nproc", g.num(65535, c))
 		}
-		u.Set("nofile", Map().Set("soft", Int(20000)).Set("hard", Int(40000)))
+		if g.chance("ul-short", 1, 3) {
+			u.Set("nofile", g.num(20000, c))
+		} else {
+			u.Set("nofile", Map().Set("soft", g.num(20000, c)).Set("hard", g.num(40000, c)))
+		}
 		return u
 	case "sysctls":
 		if g.chance("sys-list", 1, 2) {
@@ -539,7 +561,7 @@ func (g *G) attr(a string, c *svcCtx) *Y {
 	case "cpus":
 		return Raw(g.pick("cpus", []string{"0.5", "2", "1.25"}))
 	case "cpu_shares", "cpu_count", "pids_limit", "scale", "oom_score_adj", "mem_swappiness":
-		return Int(1 + g.n(a, 8))
+		return g.num(1+g.n(a, 8), c)
 	}
 	return nil
 }
@@ -651,7 +673,14 @@ func (g *G) topResources(doc *Y, c *svcCtx, tag string, dir string) {
 			case 0:
 				nets.Set(name, Null())
 			case 1:
-				nets.Set(name, Map().Set("external", Bool(true)).Set("name", Str("ext-"+name)))
+				v := Map().Set("external", Bool(true)).Set("name", Str("ext-"+name))
+				if g.chance("ext-x", 1, 2) {
+					v.Set("x-note", Str("ext"))
+				}
+				if g.on("conflicts") && g.chance("ext-conflict", 1, 2) {
+					v.Set("driver", Str("bridge"))
+				}
+				nets.Set(name, v)
 			case 2:
 				nets.Set(name, Map().Set("driver", Str("overlay")).Set("driver_opts", Map().Set("foo", Str("bar")).Set("baz", Int(1))).Set("labels", g.kvMapOrList("netlbl", c, labelKeys)))
 			case 3:
@@ -676,7 +705,15 @@ func (g *G) topResources(doc *Y, c *svcCtx, tag string, dir string) {
 			case 0:
 				vols.Set(name, Null())
 			case 1:
-				vols.Set(name, Map().Set("external", Bool(true)))
+				v := Map().Set("external", Bool(true))
+				if g.chance("ext-x", 1, 2) {
+					v.Set("x-note", Str("ext"))
+					v.Set("x-other", Int(1))
+				}
+				if g.on("conflicts") && g.chance("ext-conflict", 1, 2) {
+					v.Set("driver", Str("local")) // external + creation parameter: must be refused, whatever the key order
+				}
+				vols.Set(name, v)
 			case 2:
 				vols.Set(name, Map().Set("driver", Str("local")).Set("driver_opts", Map().Set("type", Str("none")).Set("o", Str("bind")).Set("device", Str("./voldata"))))
 			default:
@@ -951,6 +988,7 @@ func (g *G) options(L *Layout) {
 		o.SkipDefaultValues = g.chance("o-sdv", 1, 6)
 		o.DiscardEnvFiles = g.chance("o-def", 1, 5)
 	}
+	o.NoStubLoader = g.chance("o-nostub", 1, 4)
 	if g.on("profiles-opt") {
 		o.Profiles = []string{g.pick("o-prof", []string{"dev", "debug", "*"})}
 	}
